@@ -75,6 +75,10 @@ def extra(rep, impl_exe, model_exe, rng, tier):
                 probes.append("c13az %d %s" % (pct, J.hx("".join(rng.choice("ABCDEFGH IJKLMNOP") for _ in range(n)))))
                 probes.append("c13az %d %s" % (pct, J.hx(J.rand_text(rng, n))))
                 probes.append("c13az %d %s" % (pct, J.hx(bytes([rng.choice([0, 255])]) * n)))
+        # exactly 64 data words (the compact limit) at low percentages: every length around it
+        for pct in ((0, 5, 15) if tier == "quick" else (0, 1, 3, 5, 10, 15, 16, 17)):
+            for n in (range(96, 108) if tier == "quick" else range(60, 130)):
+                probes.append("c13az %d %s" % (pct, J.hx("".join(rng.choice("ABCDEFGHIJKLMNOPQRSTUVWXYZ") for _ in range(n)))))
         pouts = run_lines(impl_exe, probes, shards=NCPU)
         rep.cov["aztec_smaller_size_probes"] = len(probes)
         nreq = 0
@@ -98,6 +102,10 @@ def extra(rep, impl_exe, model_exe, rng, tier):
                 viol[-1]["replay"] = "echo '%s' | %s" % (l[:300], impl_exe)
                 break
         rep.cov["aztec_explicit_requests_judged"] = nreq
+    if not viol:
+        # the version must not depend on what was encoded before (same payload bit count in another mode)
+        import held
+        viol += held.qr_adversarial_phase(rep, impl_exe, rng, tier, held.run_fresh_each)
     return viol
 
 
